@@ -844,6 +844,36 @@ def run_histories(ctx, out):
         if pr:
             out.violations.append({"signature": "C17-object-history", "what": pr[0][:600],
                                    "case": {"kind": "history", "ops": [list(o) for o in h]}})
+    # the same for ReasonCode objects: set(name) / unpack(byte) / value, then pack() and getName() of the object as it is now
+    names = ["Success", "No matching subscribers", "Unspecified error", "Not authorized", "Packet identifier in use"]
+    for _ in range(ctx.n(100, 1000)):
+        rc = ReasonCode(PacketTypes.PUBACK)
+        cur = 0
+        seq = []
+        bad = None
+        for step in range(rng.choice([2, 4, 7])):
+            x = rng.random()
+            if x < 0.5:
+                n = rng.choice(names)
+                rc.set(n)
+                cur = ReasonCode(PacketTypes.PUBACK, n).value
+                seq.append(["set", n])
+            elif x < 0.7:
+                v = rng.choice([0, 16, 128, 135, 145])
+                rc.unpack(bytes([v]))
+                cur = v
+                seq.append(["unpack", v])
+            else:
+                fresh = ReasonCode(PacketTypes.PUBACK, identifier=cur)
+                seq.append(["pack"])
+                if bytes(rc.pack()) != bytes(fresh.pack()) or rc.getName() != fresh.getName() or rc.value != cur or not (rc == fresh):
+                    bad = f"after {seq}: pack {bytes(rc.pack()).hex()} name {rc.getName()!r} value {rc.value}, a fresh object for {cur} gives {bytes(fresh.pack()).hex()} {fresh.getName()!r}"
+                    break
+        out.cases += 1
+        out.validated += 1
+        out.stat("object_histories_reason_code")
+        if bad:
+            out.violations.append({"signature": "C17-reason-code-history", "what": bad[:500], "case": {"kind": "rc-history", "seq": seq}})
     out.notes.append(f"object histories: {len(hs)} sequences of assignment / del / clear() / pack() on two Properties objects sharing "
                      "the application's list objects; pack() compared with the encoding of a fresh object holding the same values")
 
